@@ -1,7 +1,7 @@
 (* C05 — property theorems. This file contains nothing but the statements, each closed by
    `exact <lemma>` from Proofs*.v, with Print Assumptions beneath, and the non-vacuity examples. *)
 From Coq Require Import List Permutation NArith.
-From C05 Require Import Model ProofsOrder ProofsNorm ProofsSearch Proofs ProofsProxy ProofsSums.
+From C05 Require Import Model ProofsOrder ProofsNorm ProofsSearch Proofs ProofsProxy ProofsSums ProofsRepair.
 Import ListNotations.
 
 (* lem:topk_union — the top k of a union of ID multisets (duplicates identified, either order)
@@ -43,8 +43,67 @@ Theorem C05_topk_partition_prepare : forall p fs fpi,
 Proof. exact topk_partition_prepare. Qed.
 Print Assumptions C05_topk_partition_prepare.
 
-(* Total, histogram, count aggregation and NotExists equal those of the one fraction holding
-   everything when no hit ID is stored twice (for every request, scanning or not). *)
+(* MergeQPRs against its specification (the three clauses of the CMerge spec checker), for any
+   number of parts, duplicates inside and across parts, both orders, EVERY limit:
+   - the IDs are the first `limit` entries of the canonical list of all IDs;
+   - if every part's Total is the length of its own ID list, the merged Total (after the duplicate
+     repair) is the number of distinct IDs;
+   - if every part's histogram counts exactly its own IDs, the merged histogram (after the repair)
+     counts every distinct ID once. *)
+Theorem C05_merge_spec : forall dst qs L H o,
+  q_ids (merge_qprs dst qs L H o) = firstn L (norm o (all_ids dst qs))
+  /\ (Forall (fun q => q_total q = N.of_nat (length (q_ids q))) (dst :: qs) ->
+      q_total (merge_qprs dst qs L H o) = N.of_nat (length (norm o (all_ids dst qs))))
+  /\ (Forall (fun q => q_hist q = ids_hist H (q_ids q)) (dst :: qs) ->
+      q_hist (merge_qprs dst qs L H o) = ids_hist H (norm o (all_ids dst qs))).
+Proof. exact merge_spec. Qed.
+Print Assumptions C05_merge_spec.
+
+(* calcEnsuredIDsCount against its specification (the CEnsured spec checker). *)
+Theorem C05_ensured_spec : forall o ids nf rem,
+  ensured o ids [] = length ids
+  /\ ensured o ids (nf :: rem) <= length ids
+  /\ (forall z, In z (firstn (ensured o ids (nf :: rem)) ids) -> beyond o nf z = true)
+  /\ (forall i, nth_error ids (ensured o ids (nf :: rem)) = Some i -> beyond o nf i = false).
+Proof. exact ensured_spec. Qed.
+Print Assumptions C05_ensured_spec.
+
+(* paginateIDs against its specification (the CPage spec checker). *)
+Theorem C05_paginate_spec : forall ids off size,
+  fst (paginate ids off size) = firstn size (skipn off ids)
+  /\ snd (paginate ids off size) = length (fst (paginate ids off size)).
+Proof. exact paginate_spec. Qed.
+Print Assumptions C05_paginate_spec.
+
+(* Total and histogram WITHOUT the "no ID stored twice" hypothesis: an ID may be stored in any
+   number of fractions. If the limit cuts nothing (limit >= number of stored hits) and no single
+   fraction holds the same ID twice, the duplicate repair of MergeQPRs makes Total and histogram
+   exactly those of one fraction holding every document ONCE (any `once` with the same hit IDs,
+   each one time). Both hypotheses are needed: a duplicate beyond the cut is never seen by the merge
+   (C05_dup_beyond_cut_not_repaired below), and a fraction reports an ID it holds twice as one ID
+   but two hits. *)
+Theorem C05_total_hist_repaired :
+  forall (p : params) (fs : list frac) (keep : frac -> bool) (prepared : list frac) (fpi : nat) (r : qpr),
+    (forall f, In f fs -> keep f = false -> hit_ids p f = []) ->
+    Permutation prepared (filter keep fs) ->
+    KS (p_order p) prepared ->
+    Forall (fun f => NoDup (hit_ids p f)) fs ->
+    length (all_hit_ids p fs) <= p_limit p ->
+    search_docs p fpi prepared = Ok r ->
+    q_total r = (if p_total p then N.of_nat (length (global_order p fs)) else 0%N)
+    /\ q_hist r = ids_hist (p_hist p) (global_order p fs)
+    /\ forall once : frac,
+         NoDup (hit_ids p once) -> (forall x, In x (hit_ids p once) <-> In x (all_hit_ids p fs)) ->
+         q_total r = q_total (frac_search p (p_limit p) once)
+         /\ q_hist r = q_hist (frac_search p (p_limit p) once).
+Proof. exact total_hist_repaired. Qed.
+Print Assumptions C05_total_hist_repaired.
+
+(* All four sums for EVERY limit (cutting or not), scanning request or not: Total, histogram, count
+   aggregation and NotExists equal those of the one fraction holding everything when no hit ID is
+   stored twice. The hypothesis is what the aggregation truly needs (MergeQPRs never repairs an
+   aggregation: C05_aggregation_counts_duplicates below); Total and histogram need it only when
+   the limit cuts (otherwise C05_total_hist_repaired applies). *)
 Theorem C05_sums_partition :
   forall (p : params) (fs : list frac) (keep : frac -> bool) (prepared : list frac) (fpi : nat) (r : qpr),
     (forall f, In f fs -> keep f = false -> hit_ids p f = []) ->
@@ -55,6 +114,29 @@ Theorem C05_sums_partition :
     sums r = sums (frac_search p (p_limit p) (concat fs)).
 Proof. exact sums_partition. Qed.
 Print Assumptions C05_sums_partition.
+
+(* The same through the proxy: layouts = the fraction layout of the replica that answered for each
+   shard (answers = what each of them searched, in any valid order); with no hit ID stored twice
+   among them, Total, histogram, aggregation and NotExists are those of ONE fraction holding the
+   documents of all shards, asked for offset+size. *)
+Theorem C05_proxy_sums :
+  forall p off size fpi (layouts answers : list (list frac)) (r : qpr),
+    Forall2 (valid_prep p) layouts answers ->
+    NoDup (all_hit_ids p (concat layouts)) ->
+    proxy_search p off size fpi answers = Ok r ->
+    sums r = sums (frac_search (with_limit p (off + size)) (off + size) (concat (concat layouts))).
+Proof. exact proxy_sums. Qed.
+Print Assumptions C05_proxy_sums.
+
+(* What SearchDocs returns (C05_topk_partition) and every page the proxy returns
+   (C05_shards_replicas) is strictly ordered, hence lists every ID once (the strictly_ordered
+   clauses of the CSearch / CProxy spec checkers). *)
+Theorem C05_listed_once : forall p fs off size,
+  SS (p_order p) (spec_ids p fs) /\ NoDup (spec_ids p fs)
+  /\ SS (p_order p) (firstn size (skipn off (global_order p fs)))
+  /\ NoDup (firstn size (skipn off (global_order p fs))).
+Proof. exact listed_once. Qed.
+Print Assumptions C05_listed_once.
 
 (* thm:C05_shards_replicas — s shards x r replicas: every shard is answered by ONE of its replicas
    (any of them, each with its own fraction layout, searched in any valid order); if the replicas of
@@ -135,3 +217,29 @@ Proof.
   - constructor; [simpl; auto | constructor; [simpl; auto | constructor]].
   - vm_compute. reflexivity.
 Qed.
+
+(* why C05_total_hist_repaired needs "the limit cuts nothing": x is stored in both fractions but
+   lies beyond the cut of limit 1, the merge never sees the two copies next to each other:
+   Total is 4 although there are 3 distinct hits *)
+Example C05_dup_beyond_cut_not_repaired :
+  let p := mkP 0 5000 1%nat Desc true 0 false in
+  let x := mkDoc (1000, 0) true 0 in
+  let fs := [[mkDoc (1003, 1) true 0; x]; [mkDoc (1002, 1) true 0; x]] in
+  Forall (fun f => NoDup (hit_ids p f)) fs
+  /\ length (global_order p fs) = 3%nat
+  /\ exists r, search_docs p 1 (prepare p fs) = Ok r /\ q_total r = 4.
+Proof.
+  split; [|split].
+  - repeat constructor; simpl; intuition discriminate.
+  - vm_compute. reflexivity.
+  - eexists. split; vm_compute; reflexivity.
+Qed.
+
+(* why C05_sums_partition keeps "no hit ID stored twice" for the aggregation: nothing is cut, the
+   duplicate is repaired in Total and histogram (1 hit, bucket count 1) but the aggregation
+   still counts the document twice *)
+Example C05_aggregation_counts_duplicates :
+  let p := mkP 0 5000 10%nat Desc true 1 true in
+  let x := mkDoc (1000, 0) true 1 in
+  search_docs p 0 (prepare p [[x]; [x]]) = Ok (mkQ [(1000, 0)] 1 [(1000, 1)] [(1, 2)] 0).
+Proof. vm_compute. reflexivity. Qed.
